@@ -255,18 +255,32 @@ def gen_config(rng, fam, out, i):
         end = rng.choice(["stop", "abort"])
         if rng.random() < 0.3:
             prog += monitor_ops(rng, s, 2) + (["monitor", str(s), "-1", "0"] if end == "stop" else [])
-        prog += ["yield", str(rng.choice([0, 10, 80, 300])), "state", end, "state"]
+        if ns == 1 and "map" not in prog and rng.random() < 0.35:
+            # the client only waits until the runtime no longer reports Running (the faulted stream wound down by itself) and
+            # goes on without stop / abort
+            prog += ["yield", str(rng.choice([0, 10, 80])), "pollstate"]
+        else:
+            prog += ["yield", str(rng.choice([0, 10, 80, 300])), "state", end, "state"]
         # a failed device has to be configured again before it can be started (it is no longer armed)
         prog += ["configure", "start", "yield", str(rng.choice([0, 10]))] + (["monitor", str(s), "-1", "0"] if rng.random() < 0.3 else []) + ["stop"]
     elif fam == "avg":
+        prev_poll = False
         for a in range(nacq):
-            if a > 0 and rng.random() < 0.35:
+            if a > 0 and prev_poll and rng.random() < 0.6:
+                prog += ["setavg", "0", "1"]      # averaging off right after an acquisition that was not ended by stop
+            elif a > 0 and rng.random() < 0.35:
                 # another window size, or averaging switched off (the source then writes straight into the sink's queue) and on again
                 prog += ["setavg", "0", str(rng.choice([k2 for k2 in (1, 2, 3, 4) if k2 != avg]))]
+            prev_poll = False
             prog += ["start"]
             if rng.random() < 0.3:
                 prog += monitor_ops(rng, 0, 2) + ["monitor", "0", "-1", "0"]
-            prog += ["stop"]
+                prog += ["stop"]
+            elif a < nacq - 1 and ns == 1 and rng.random() < 0.4:
+                prog += ["pollstate"]     # the client lets the finite acquisition finish by itself and goes on without stop
+                prev_poll = True
+            else:
+                prog += ["stop"]
     for s, d in enumerate(streams):
         for k2 in ("w2", "h2", "type2"):
             d.pop(k2, None)
@@ -907,7 +921,7 @@ def main(prop, tier):
     fams = FAMILIES[prop]
     small = {"fullring": n // 5, "lifecycle": n // 4 if prop != "C08" else n}   # directed / borrowed families get a fixed share
     if prop == "C04":
-        small["avg"] = n // 6      # (averaging switched on / off between acquisitions: the plain acquisitions are C04's)
+        small["avg"] = n // 4      # (averaging switched on / off between acquisitions: the plain acquisitions are C04's)
     rest = (n - sum(small[f] for f in fams if f in small)) // max(1, len([f for f in fams if f not in small]))
     for fam in fams:
         stats, allp = run_family(chk, prop, exe, bdir, fam, small.get(fam, rest), rng, fam)
